@@ -372,4 +372,12 @@ VARIANTS = [
          "new": "        self.in_injections = _new_tracker()\n        self.out_injections = _new_tracker()\n"},
         {"file": PC, "old": "class ProxiedCircuit(Circuit):\n",
          "new": "def _new_tracker():\n    return InjectionTracker(0, maxlen=512)\n\n\nclass ProxiedCircuit(Circuit):\n"}]},
+    # ------------------------------------------------------------------ audit round (anchored on the fixed text: inapplicable until the fixes are committed)
+    {'name': 'R2 filtered PacketAck blocks not installed when appended acks survive (audit C05#1 reverted)', 'file': 'hippolyzer/lib/proxy/circuit.py', 'expect': 'C05.R2', 'old': '        # Every block was an ACK for a packet the proxy injected. A PacketAck that was\n        # empty to begin with is just passed on like any other message.\n        if had_blocks and not new_blocks:\n            # Sending a PacketAck with nothing left in it would be suspicious\n            if not message.acks:\n                return False\n            # Only the (already rewritten) appended acks are left. The original blocks must not\n            # go out, they all ack injected packets. Carry the appended acks in the body instead.\n            new_blocks = [Block("Packets", ID=x) for x in message.acks]\n            message.acks = ()\n', 'new': '        # Sending a PacketAck with nothing in it would be suspicious\n        if not new_blocks:\n            return False\n'},
+    {'name': 'P R2 PacketAck rewrite with the original-count local renamed', 'expect': 'silent', 'edits': [{'file': 'hippolyzer/lib/proxy/circuit.py', 'old': '        had_blocks = bool(message["Packets"])\n', 'new': '        came_with_blocks = len(message["Packets"]) > 0\n'}, {'file': 'hippolyzer/lib/proxy/circuit.py', 'old': '        if had_blocks and not new_blocks:\n', 'new': '        if came_with_blocks and not new_blocks:\n'}]},
+    {'name': 'R5 UDP-ban refusal back in front of the ack bookkeeping (audit C05#2 reverted)', 'expect': 'C05.R5', 'edits': [{'file': 'hippolyzer/lib/proxy/lludp_proxy.py', 'old': "        # Check for UDP bans on inbound messages. Only after the ACK bookkeeping: the packet was\n        # received and the ACKs riding on it are real even though the message won't be passed on.\n        if packet.incoming:\n            try:\n                self._ensure_message_allowed(message)\n            except PermissionError:\n                # ACKs the sender if needed and forwards the piggy-backed ACKs\n                region.circuit.drop_message(message)\n                raise\n\n", 'new': ''}, {'file': 'hippolyzer/lib/proxy/lludp_proxy.py', 'old': '        assert message is not None\n\n        if not self.session:\n', 'new': '        assert message is not None\n        if packet.incoming:\n            self._ensure_message_allowed(message)\n\n        if not self.session:\n'}]},
+    {'name': 'R5 refused packet not discarded through drop_message', 'file': 'hippolyzer/lib/proxy/lludp_proxy.py', 'expect': 'C05.R5', 'old': '                region.circuit.drop_message(message)\n                raise\n', 'new': '                raise\n'},
+    {'name': 'P R5 ban refusal written inline after the ack bookkeeping', 'file': 'hippolyzer/lib/proxy/lludp_proxy.py', 'expect': 'silent', 'old': "        # Check for UDP bans on inbound messages. Only after the ACK bookkeeping: the packet was\n        # received and the ACKs riding on it are real even though the message won't be passed on.\n        if packet.incoming:\n            try:\n                self._ensure_message_allowed(message)\n            except PermissionError:\n                # ACKs the sender if needed and forwards the piggy-backed ACKs\n                region.circuit.drop_message(message)\n                raise\n\n", 'new': '        if packet.incoming and not self.message_xml.validate_udp_msg(message.name):\n            region.circuit.drop_message(message)\n            raise PermissionError(f"UDPBanned message {message.name}")\n\n'},
+    {'name': 'R4 resend clock back to naive local time (audit C05#3 reverted)', 'file': 'hippolyzer/lib/base/message/circuit.py', 'expect': 'C05.R4', 'old': '    return dt.datetime.now(dt.timezone.utc)\n', 'new': '    return dt.datetime.now()\n'},
+    {'name': 'P R4 resend clock with the tz passed by keyword', 'file': 'hippolyzer/lib/base/message/circuit.py', 'expect': 'silent', 'old': '    return dt.datetime.now(dt.timezone.utc)\n', 'new': '    return dt.datetime.now(tz=dt.timezone.utc)\n'},
 ]
